@@ -6,8 +6,9 @@ A2 CONST: chunk tags pairwise distinct; varint reader/writer use the same group 
 A3 FLOW: every probe of the scanner calls decompress_deflate_stream with verify = true.
 A4 AFF: coverage invariant of the scanner (rules/scan.py).   A5 LIN: bounds of accesses to the untrusted slice.
 A6 SITE: explicit failure constructs under expand/recreate (shared table with C05).
+A1t: items of a terminated list never equal the terminator.  A8: the IDAT accumulators advance together.
 Not decided: that accepted streams reconstruct (run-time comparison under verify=true); value relations between
-idat_parse and the deflate parser (bytes between last block and Adler-32, zero-length IDAT chunk).
+idat_parse and the deflate parser (bytes between last block and Adler-32).
 """
 import re
 from .. import flow, proto, alpha
